@@ -51,6 +51,85 @@ def _prod(ds):
     return r
 
 
+def entails(t):
+    """pc |= t, cached per path (a `True` stays true while the path condition grows; a cached `False` only costs a simplification)."""
+    t = z3.simplify(lift(t))
+    if z3.is_true(t):
+        return True
+    if z3.is_false(t):
+        return False
+    ctx = V.cur()
+    cache = ctx.ghost.setdefault("c18_entails", {})
+    k = t.get_id()
+    if k in cache and cache[k][0]:
+        return True
+    # a fresh (non-incremental) solver over the LINEAR quantifier-free part of the path condition: fast and complete there.
+    # (z3's incremental push/pop core is weak on to_int / to_real and would answer `unknown`.)
+    light = ctx.ghost.get("c18_light")
+    if light is None:
+        light = ctx.ghost["c18_light"] = [[], 0]
+    facts, done = light
+    for f in ctx.pc[done:]:
+        if _is_linear_qf(f):
+            facts.append(f)
+    light[1] = len(ctx.pc)
+    if k in cache and cache[k][2] == len(facts):
+        return False
+    sol = z3.Solver()
+    sol.set("timeout", 300)
+    sol.add(*facts)
+    sol.add(z3.Not(t))
+    r = sol.check() == z3.unsat
+    cache[k] = (r, t, len(facts))  # keep `t` alive so the id is not reused
+    return r
+
+
+def _is_linear_qf(t, _memo={}):
+    k = t.get_id()
+    if k in _memo:
+        return _memo[k][0]
+    r = True
+    if z3.is_quantifier(t) or z3.is_var(t):
+        r = False
+    elif z3.is_app(t):
+        kind = t.decl().kind()
+        ch = t.children()
+        if kind == z3.Z3_OP_MUL and sum(1 for c in ch if not (z3.is_int_value(c) or z3.is_rational_value(c))) > 1:
+            r = False
+        elif kind in (z3.Z3_OP_DIV, z3.Z3_OP_IDIV, z3.Z3_OP_MOD, z3.Z3_OP_REM) and not (z3.is_int_value(ch[1]) or z3.is_rational_value(ch[1])):
+            r = False
+        else:
+            r = all(_is_linear_qf(c) for c in ch)
+    _memo[k] = (r, t)
+    return r
+
+
+def nonneg_dim(n):
+    """max(0, n) of numpy/torch `arange(n)`; just n when the path condition already gives n >= 0."""
+    if not isinstance(n, Sym):
+        return max(0, n)
+    return n if entails(n.t >= 0) else V.smax(0, n)
+
+
+def cancel_division(t):
+    """x * (y / x) -> y for a real product, when the path condition gives x != 0 (one rewriting pass after simplify)."""
+    t = z3.simplify(t)
+    if not (z3.is_app(t) and t.decl().kind() == z3.Z3_OP_MUL):
+        return t
+    fs = _ac_children(t)
+    for i, f in enumerate(fs):
+        if z3.is_app(f) and f.decl().kind() == z3.Z3_OP_DIV:
+            num, den = f.arg(0), f.arg(1)
+            for j, h in enumerate(fs):
+                if j != i and h.eq(den) and entails(den != 0):
+                    rest = [x for q, x in enumerate(fs) if q not in (i, j)] + [num]
+                    r = rest[0]
+                    for x in rest[1:]:
+                        r = r * x
+                    return z3.simplify(r)
+    return t
+
+
 def _to_real(t):
     t = V._num(lift(t))
     return z3.ToReal(t) if z3.is_int(t) else t
@@ -407,13 +486,12 @@ def real_mod(a, b):
     generic = ra - rb * z3.ToReal(z3.ToInt(ra / rb))
     ia, ib = z3.simplify(z3.ToInt(ra)), z3.simplify(z3.ToInt(rb))
     cond = z3.simplify(z3.And(z3.IsInt(ra), z3.IsInt(rb), ib != 0))
-    ctx = V.cur()
     # evaluated under the current path condition: when it already decides the case distinction the simpler term is used
-    if ctx.entails(ib > 0):
+    if entails(ib > 0):
         integral = z3.ToReal(ia % ib)  # positive divisor: floored and Euclidean remainder coincide
     else:
         integral = z3.ToReal(V.py_mod(ia, ib))
-    if z3.is_true(cond) or ctx.entails(cond):
+    if entails(cond):
         return Sym(integral)
     return Sym(z3.If(cond, integral, generic))
 
@@ -477,7 +555,35 @@ def install(reg):
         r = SymArr.__getitem__(base, key)
         if isinstance(r, SymArr) and not hasattr(r, "as_type"):
             _like(r, base)
+        if isinstance(r, SymArr) and not base.pylist:
+            _restore_full_slice_dims(base, keys, r)
         return r
+
+    def _restore_full_slice_dims(base, keys, r):
+        """a[..., :, ...]: a full slice keeps the axis length exactly (the generic slice rule writes max(0, n))."""
+        n_real = sum(1 for k in keys if k is not None and k is not Ellipsis)
+        if any(k is Ellipsis for k in keys):
+            e = [i for i, k in enumerate(keys) if k is Ellipsis][0]
+            keys = keys[:e] + (slice(None),) * (base.ndim - n_real) + keys[e + 1:]
+        else:
+            keys = tuple(keys) + (slice(None),) * (base.ndim - n_real)
+        shape = list(r.shape)
+        pos, ax = 0, 0
+        for k in keys:
+            if k is None:
+                pos += 1
+                continue
+            if isinstance(k, slice):
+                if k.start is None and k.stop is None and k.step is None and pos < len(shape):
+                    shape[pos] = base.shape[ax]
+                pos += 1
+            elif isinstance(k, SymArr) and k.ndim >= 1:
+                pos += k.ndim
+            elif isinstance(k, list):
+                pos += 1
+            ax += 1
+        if len(shape) == len(r.shape):
+            r.shape = tuple(shape)
 
     reg.getitem_models[SymArr] = arr_getitem
 
@@ -545,6 +651,29 @@ def install(reg):
         if len(a) == 1 and isinstance(a[0], (tuple, list, torch.Size)):
             return tuple(a[0])
         return tuple(a)
+
+    def m_t_arange(interp, *a, **kw):
+        if not contains_sym(a):
+            return interp.native(torch.arange, *a, **kw)
+        if len(a) != 1:
+            raise OutOfSubset("torch.arange(start, stop) with symbolic bounds")
+        r = SymArr((nonneg_dim(a[0]),), lambda i: Sym(i), "int")
+        r.as_type = torch.Tensor
+        return r
+
+    M[torch.arange] = m_t_arange
+
+    def m_np_arange(interp, *a, dtype=None, **kw):
+        if not contains_sym(a):
+            return interp.native(np.arange, *a, dtype=dtype, **kw)
+        if len(a) != 1:
+            raise OutOfSubset("np.arange(start, stop) with symbolic bounds")
+        from . import numpy_ as npm
+        n = nonneg_dim(a[0])
+        nt = lift(n)
+        return npm.index_array(n, lambda i: Sym(i), lambda v: z3.And(lift(v) >= 0, lift(v) < nt), lambda v: lift(v), name="arange")
+
+    M[np.arange] = m_np_arange
 
     def m_t_empty(interp, *a, dtype=None, device=None, **kw):
         shape = _shape_args(a)
@@ -714,11 +843,14 @@ def install(reg):
             return ((g + 1) * z3.ToReal(n) - 1) / 2
 
         def fn(n, c, y, x, _inp=NS_fn(inp), _grid=NS_fn(grid)):
-            ix = unnorm(_grid.fn(n, y, x, z3.IntVal(0)), Win)
-            iy = unnorm(_grid.fn(n, y, x, z3.IntVal(1)), Hin)
-            px, py = z3.ToInt(ix), z3.ToInt(iy)
+            ix = cancel_division(unnorm(_grid.fn(n, y, x, z3.IntVal(0)), Win))
+            iy = cancel_division(unnorm(_grid.fn(n, y, x, z3.IntVal(1)), Hin))
+            px, py = z3.simplify(z3.ToInt(ix)), z3.simplify(z3.ToInt(iy))
             exact = z3.And(ix == z3.ToReal(px), iy == z3.ToReal(py), px >= 0, px < Win, py >= 0, py < Hin)
-            return Sym(z3.If(exact, lift(_inp.fn(n, c, py, px)), other(n, c, y, x)))
+            pixel = lift(_inp.fn(n, c, py, px))
+            if entails(exact):
+                return Sym(pixel)
+            return Sym(z3.If(exact, pixel, other(n, c, y, x)))
 
         r = SymArr((inp.shape[0], inp.shape[1], grid.shape[1], grid.shape[2]), fn, "real")
         r.as_type = torch.Tensor
